@@ -143,7 +143,7 @@ fn slot_handler(slot: Arc<Slot>) -> Arc<dyn Fn(&str, &str) + Send + Sync> {
             r.nth_in_op += 1;
             return;
         }
-        let snap = Snap { dir, op: r.cur_op, point: point.to_string(), ctx: ctx.to_string(), nth_in_op: r.nth_in_op };
+        let snap = Snap { dir, op: r.cur_op, point: point.to_string(), ctx: ctx.to_string(), nth_in_op: r.nth_in_op, torn: false };
         r.nth_in_op += 1;
         r.snaps.push(snap);
     })
